@@ -39,6 +39,7 @@ func init() {
 	ruleText["R04.9"] = "in every generator, a statement replacing the node's own frame slot (data[i] = v, i captured from n.findex) by a value produced in place (reflect.New(T).Elem(), a received value) is unreachable, on the flow graph of its function literal pruned under n.anc.kind == assignStmt and CanSet(), i.e. the value is Set into the destination when the parent is an assignment"
 	ruleText["R04.10"] = "every reflect.Value.Set of a result in the closures of _append and appendSlice has an argument built by reflect.Append or reflect.AppendSlice (the operand itself only for append(s) without appended values)"
 	ruleText["R04.12"] = "same analysis as C01/R01.20 (a slice, map or channel value is created at each evaluation of its expression, never once per generated closure)"
+	ruleText["R04.13"] = "in the closures of assign, a frame slot replaced by reflect.New(T).Elem() inside a loop over several destinations lies under a test of node.redeclared, and cfg sets node.redeclared in its assignment case"
 	ruleText["R04.11"] = "same analysis as C01/R01.14 (the assign operation is skipped by cfg for single assignments only)"
 	ruleText["R04.7"] = "same analysis as C01/R01.8 (result stored on every path of the run-time closure)"
 }
@@ -75,6 +76,7 @@ func runC04(c *Config, r *Report) {
 	c04R9(ic, r)
 	c04R10(ic, r)
 	c01R14(ic, r, "R04.11")
+	c04R13(ic, r)
 	{
 		sub := newReport("C01")
 		c01R20(ic, sub)
@@ -688,4 +690,86 @@ func c04R10(ic *IC, r *Report) {
 func identOf(e ast.Expr) *ast.Ident {
 	id, _ := unparen(e).(*ast.Ident)
 	return id
+}
+
+// c04R13: in a multiple definition a, c := 2, 3 a variable already declared in the same scope
+// is assigned, not created: pointers to it and closures over it see the new value. Sibling
+// agreement with the definition from a call (assignFromCall tests node.redeclared): (a) in the
+// generator of assignments, every closure installed for a definition that replaces slots in a
+// loop over several destinations does so under a test of the destination's redeclared flag;
+// (b) cfg sets that flag in its assignment case, not only in the helper of a, b := f().
+func c04R13(ic *IC, r *Report) {
+	info := ic.Info
+	redeclFld := ic.field("node", "redeclared")
+	if redeclFld == nil {
+		r.Errorf("anchor not resolved: node.redeclared")
+		return
+	}
+	fi := ic.fn(r, "assign")
+	if fi == nil {
+		return
+	}
+	mentionsRedecl := func(e ast.Node) bool {
+		found := false
+		ast.Inspect(e, func(m ast.Node) bool {
+			if se, ok := m.(*ast.SelectorExpr); ok && selField(info, se) == redeclFld {
+				found = true
+			}
+			return true
+		})
+		return found
+	}
+	n := 0
+	for k, fl := range (&c02ctx{ic: ic}).closuresOf(fi) {
+		ast.Inspect(fl.Body, func(m ast.Node) bool {
+			body := loopBody(m)
+			if body == nil {
+				return true
+			}
+			ast.Inspect(body, func(q ast.Node) bool {
+				as, ok := q.(*ast.AssignStmt)
+				if !ok || len(as.Lhs) != 1 || len(as.Rhs) != 1 {
+					return true
+				}
+				if _, ok := unparen(as.Lhs[0]).(*ast.IndexExpr); !ok || !isFreshValue(ic, nil, as.Rhs[0]) {
+					return true
+				}
+				if t := info.TypeOf(as.Lhs[0]); t == nil || types.TypeString(t, nil) != "reflect.Value" {
+					return true
+				}
+				// only the frame's own slots (data[j]), not the temporaries (t[i])
+				if ix := unparen(as.Lhs[0]).(*ast.IndexExpr); !strings.Contains(types.ExprString(ix.X), "data") {
+					return true
+				}
+				n++
+				guarded := false
+				for _, g := range pathGuards(fl.Body, as) {
+					if mentionsRedecl(g.cond) {
+						guarded = true
+					}
+				}
+				r.Check(guarded, "R04.13", fmt.Sprintf("assign/closure#%d/slot-replaced-unless-redeclared", k+1), ic.pos(as.Pos()), "a destination already declared in the scope keeps its variable",
+					"the closure executing a multiple definition replaces the slot of every destination by a new variable ("+types.ExprString(as.Lhs[0])+" = "+types.ExprString(as.Rhs[0])+") without testing node.redeclared: in a := 1; p := &a; a, c := 2, 3 the variable a is re-created, *p keeps 1 and closures over a keep the old variable, where compiled Go assigns the existing a")
+				return true
+			})
+			return false
+		})
+	}
+	if n == 0 {
+		r.Errorf("R04.13: no slot replacement in a loop over several destinations found in the closures of assign")
+	}
+	// (b) producer
+	cfgFn := ic.fn(r, "Interpreter.cfg")
+	if cfgFn == nil {
+		return
+	}
+	sets := 0
+	ast.Inspect(cfgFn.Decl.Body, func(m ast.Node) bool {
+		if as, ok := m.(*ast.AssignStmt); ok && len(as.Lhs) == 1 && selField(info, as.Lhs[0]) == redeclFld {
+			sets++
+		}
+		return true
+	})
+	r.Check(sets > 0, "R04.13", "cfg/redeclared-flag-set-for-definitions", ic.pos(cfgFn.Decl.Pos()), "cfg marks the destinations of a definition that are already declared in the scope",
+		"cfg never sets node.redeclared in its own assignment case (only the helper of a, b := f() does): the generator of a, c := 2, 3 cannot tell the redeclared a from a new variable")
 }
